@@ -24,6 +24,11 @@ func (x *Exec) localsOf(fr *Frame, st *State, pos token.Pos) func(string) (TV, b
 				if a, ok := in.(*ssa.Alloc); ok && a.Comment == name {
 					if best == nil || (a.Pos() > best.Pos() && (!pos.IsValid() || a.Pos() <= pos)) {
 						best = a
+					} else if !a.Pos().IsValid() && !best.Pos().IsValid() && fr.curBlk != nil &&
+						a.Block().Index > best.Block().Index && a.Block().Index <= fr.curBlk.Index {
+						// synthetic locals (range loop counters) carry no position: take the one
+						// declared latest among those declared before the current block
+						best = a
 					}
 				}
 			}
